@@ -12,8 +12,8 @@ TECHNIQUE = ('per-entry contribution rule on MIR paths: loop iterators are resol
              'event of a kernel is evaluated to a polynomial and compared with the dense definition; decision tables for the alpha / beta fast paths')
 EXPLANATION = (
     "Partial claim. Equality with the dense result for every matrix is a statement about loops over runtime index arrays and is NOT decided "
-    "as such; nor are construction from triplets, canonicalisation, check_format (its dimension part is C19.R4), transpose, to_triu, select_rows "
-    "(its per-column bookkeeping is C09.R7), set_entry, dropzeros and the concatenations. Decided on the MIR of the current tree, for the "
+    "as such; nor are construction from triplets, canonicalisation, transpose, select_rows "
+    "(its per-column bookkeeping is C09.R7), set_entry, dropzeros and the entry placement inside the concatenations (fill_block / colcount_block: C11.R1 count = fill). Decided on the MIR of the current tree, for the "
     "kernels every residual, KKT product, norm and scaling goes through, is the *entry-wise meaning*: with the loop iterators resolved to a column "
     "j, a stored entry k of that column (k in colptr[j]..colptr[j+1]) and its row r = rowval[k], value v = nzval[k], (R1) gemv N adds "
     "a v x[j] to y[r], gemv T adds a v x[r] to y[j], after y := b y, on each of the a = 1 / a = -1 / general and b = 0 / 1 / -1 / general fast "
@@ -22,7 +22,10 @@ EXPLANATION = (
     "column accumulators and rejects r > j; (R3) col_sums / row_sums / the five norm routines accumulate the stored value (its absolute value "
     "under max) at the column, the row, or both (symmetric norm), the resetting variants zero first; (R4) scale / negate act on all of nzval, "
     "lscale multiplies v by l[r], rscale scales the slice of column j by r[j], lrscale multiplies v by l[r] r[j]; (R5) the trait impls route "
-    "gemv / symv / quad_form to these kernels with unchanged arguments. Every inner loop must be the entry range of the *same* column the outer "
+    "gemv / symv / quad_form to these kernels with unchanged arguments; (R7) to_triu keeps, per column, the leading entries with row <= col - the count pass and "
+    "the copy pass use the same count, rows and values are copied over identical ranges, the new colptr is the cumulative sum - is_triu rejects any row > col and "
+    "index_to_coord inverts colptr; (R8) check_format returns Ok exactly when check_dimensions passes, every column has strictly increasing rows and every row is < m; (R9) in blockdiag / hvcat a row cursor is advanced only by nrows(block), a column cursor only by ncols(block), spalloc receives the matching sums, "
+    "and count and fill pass agree. Every inner loop must be the entry range of the *same* column the outer "
     "loop is at: an iterator that is not recognised as such leaves a raw term and the comparison fails closed.")
 ASSUMPTIONS = ['rustc MIR construction and trait resolution are correct',
                'the matrix is canonical (colptr monotone, rows in range): what check_format establishes',
@@ -425,6 +428,17 @@ def sums_norms(rep, F, tag):
         R.check(bool(st) and all(t == 'arg2[j]' and re.fullmatch(r'sum\(self\.nzval\[%s\]\)' % COL, v) for k, t, v in st), 'col_sums' + tag,
                 'col_sums stores %s, expected sums[j] = sum(nzval[colptr[j]..colptr[j+1]])' % [(t, v[:90]) for k, t, v in st][:2], f.loc())
         n += 1
+        for nm_ in ('col_sums', 'col_norms_no_reset'):
+            g_ = meth(nm_)
+            itp = 0
+            for val, ret, row in events(g_):
+                if ret[0] != 'cut':
+                    continue
+                itp += 1
+                R.check(any(k == '=' and t == 'arg2[j]' for k, t, v, e in row), 'every-column-written|%s%s' % (nm_, tag),
+                        '%s has an iteration path (%s) that leaves its output entry unwritten: a structurally empty column must give 0 / keep the running maximum through the '
+                        'same assignment, not keep whatever the caller\'s buffer held' % (nm_, {k[:50]: v for k, v in val.items() if 'NEXT' not in k}), g_.loc())
+            R.check(itp >= 1, 'iteration-paths|%s%s' % (nm_, tag), 'no iteration path of %s analysed' % nm_, g_.loc())
         f = meth('row_sums')
         ok = False
         for val, ret, row in events(f):
@@ -531,6 +545,168 @@ def routing(rep, F, tag):
     R.guard(body)
 
 
+# ---------------------------------------------------------------------------
+# R7: triangle extraction / test, linear index -> coordinates
+# ---------------------------------------------------------------------------
+
+def triangle(rep, F, tag):
+    R = rep.rule('C16.R7', 'to_triu keeps, per column, the leading entries with row <= col (count pass = copy pass, rowval and nzval copied over identical ranges); is_triu rejects any row > col; index_to_coord inverts colptr')
+
+    def body():
+        f = F.one(name='to_triu', adt='CscMatrix')
+        nz = lambda t: t.replace('withoverflow', '').replace(').0', ')')
+        J = 'next(into_iter(Range::Range(0_usize, self.n)))@Some.0'
+        NEWCP = 'from_elem(0_usize, add(self.n, 1_usize))'
+        cl = F.closures_of.get(f.key, [])
+        R.check(len(cl) == 1 and canon(cl[0].sym_local(0)) in ('le(arg2, arg1._ref__col)', 'le(arg2, arg1.col)'), 'to_triu|keeps-upper' + tag,
+                'to_triu counts the entries with %s, expected row <= col (the diagonal belongs to the upper triangle)' % [canon(c.sym_local(0)) for c in cl], f.loc())
+        cnt = [nz(canon(('call', c.callee.name, tuple(f.sym_operand(a) for a in c.args), c.bb))) for c in f.calls if c.callee.name == 'count']
+        want_cnt = 'count(filter(iter(index(self.rowval, Range::Range(index(self.colptr, %s), index(self.colptr, add(%s, 1_usize))))), closure(%s)))' % (J, J, J)
+        R.check(cnt == [want_cnt], 'to_triu|count-range' + tag, 'to_triu counts over %s, expected the rows of column j' % [c[:160] for c in cnt], f.loc())
+        stores = [(nz(canon(f.sym_place(st['p']))), nz(canon(f.sym_rvalue(st['rv'])))) for bi, si, st in f.assignments() if st['p']['p'] and st['p']['l'] != 0]
+        tgt = 'index_mut(%s, add(%s, 1_usize))' % (NEWCP, J)
+        cps = [v for t, v in stores if t == tgt]
+        ldest = 'add(index(%s, %s), index(%s, add(%s, 1_usize)))' % (NEWCP, J, NEWCP, J)
+        R.check(sorted(cps) == sorted([want_cnt, ldest]), 'to_triu|colptr' + tag,
+                'the new colptr[j+1] receives %s, expected the count of the column and then colptr[j] + count (cumulative sum)' % [c[:120] for c in cps], f.loc())
+        cs = [c for c in f.calls if c.callee.name == 'copy_from_slice']
+        got = [[nz(canon(f.sym_operand(a))) for a in c.args] for c in cs]
+        dst_rng = 'Range::Range(index(%s, %s), %s)' % (NEWCP, J, ldest)
+        src_rng = 'Range::Range(index(self.colptr, %s), add(index(self.colptr, %s), index(%s, add(%s, 1_usize))))' % (J, J, NEWCP, J)
+        want = [['index_mut(from_elem(0_usize, var:nnz), %s)' % dst_rng, 'index(self.rowval, %s)' % src_rng],
+                ['index_mut(from_elem(zero(), var:nnz), %s)' % dst_rng, 'index(self.nzval, %s)' % src_rng]]
+        R.check(sorted(got) == sorted(want), 'to_triu|copy-ranges' + tag,
+                'to_triu copies %s; expected rows and values of the leading `count` entries of column j into [colptr_new[j], colptr_new[j] + count)' % [[x[:110] for x in g] for g in got], f.loc())
+        g = F.one(name='is_triu', adt='CscMatrix')
+        cl = F.closures_of.get(g.key, [])
+        R.check(len(cl) == 1 and canon(cl[0].sym_local(0)) in ('lt(arg1._ref__col, arg2)', 'lt(arg1.col, arg2)'), 'is_triu|test' + tag,
+                'is_triu looks for %s, expected any row > col' % [canon(c.sym_local(0)) for c in cl], g.loc())
+        rows = set()
+        for val, ret, ev, tr in Walker(g, cut_loops=True).leaves():
+            a = [v for k, v in val.items() if k.startswith('any(')]
+            if ret[0] == 'c' and a:
+                rows.add((a[0], ret[1]))
+            if ret[0] == 'c' and not a:
+                rows.add(('exit', ret[1]))
+        R.check((1, 0) in rows and ('exit', 1) in rows and (1, 1) not in rows, 'is_triu|table' + tag, 'is_triu returns %s' % sorted(rows, key=str), g.loc())
+        h = F.one(name='index_to_coord', adt='CscMatrix')
+        r0 = [nz(str(ret[1])) for val, ret, ev, tr in Walker(h, cut_loops=True).leaves() if ret[0] == 's']
+        cl = F.closures_of.get(h.key, [])
+        R.check(r0 == ['tuple(index(self.rowval, arg2), sub(partition_point(self.colptr, closure(arg2)), 1_usize))']
+                and len(cl) == 1 and nz(canon(cl[0].sym_local(0))) in ('lt(arg2, add(arg1._ref__idx, 1_usize))', 'le(arg2, arg1._ref__idx)'), 'index_to_coord' + tag,
+                'index_to_coord returns %s with predicate %s, expected (rowval[idx], #(colptr entries <= idx) - 1)' % (r0, [canon(c.sym_local(0)) for c in cl]), h.loc())
+
+    R.guard(body)
+
+
+def format_check(rep, F, tag):
+    """check_format accepts exactly the canonical encodings: consistent dimensions (C19.R4 decides check_dimensions), strictly increasing
+    rows inside every column (so sorted *and* duplicate-free) and rows in range.  Decision table over its three tests."""
+    R = rep.rule('C16.R8', 'check_format: Ok iff check_dimensions passes, no column has two consecutive rows with r[k] >= r[k+1], and every row < m')
+
+    def body():
+        f = F.one(name='check_format', adt='CscMatrix')
+        nz = lambda t: t.replace('withoverflow', '').replace(').0', ')')
+        J = 'next(into_iter(Range::Range(0_usize, self.n)))@Some.0'
+        win = 'any(windows(index(self.rowval, Range::Range(index(self.colptr, %s), index(self.colptr, add(%s, 1_usize)))), 2_usize), closure())' % (J, J)
+        allk = 'all(iter(self.rowval), closure(self))'
+        cls = sorted(nz(canon(g.sym_local(0))) for g in F.closures_of.get(f.key, []))
+        R.check(cls == sorted(['le(arg2[1_usize], arg2[0_usize])', 'lt(arg2, arg1._ref__self.m)']), 'predicates' + tag,
+                'check_format tests %s, expected c[0] >= c[1] on consecutive rows (strictly increasing rows: sorted and duplicate-free) and r < m' % cls, f.loc())
+        seen = set()
+        for val, ret, ev, tr in Walker(f, cut_loops=True).leaves():
+            if ret[0] not in ('s', 'cut'):
+                continue
+            v = {nz(k): x for k, x in val.items()}
+            dim = v.get('discr(branch(check_dimensions(self)))')
+            w = [x for k, x in v.items() if k.startswith('any(windows(')]
+            wk = [k for k in v if k.startswith('any(windows(')]
+            a = v.get(allk)
+            out = str(ret[1]) if ret[0] == 's' else 'continue'
+            if dim == 1:
+                seen.add('dim')
+                R.check(out.startswith('from_residual('), 'table|dimensions' + tag, 'check_format returns %s although check_dimensions failed' % out[:60], f.loc())
+                continue
+            if wk:
+                R.check(wk[0] == win, 'window-range' + tag, 'the ordering test runs over %s, expected the rows of column j' % wk[0][:160], f.loc())
+            if w and w[0] == 1:
+                seen.add('order')
+                R.check(out.startswith('Result::Err('), 'table|row-order' + tag, 'a column with non-increasing rows gives %s' % out[:60], f.loc())
+            elif a == 0:
+                seen.add('range')
+                R.check(out.startswith('Result::Err('), 'table|row-range' + tag, 'a row index >= m gives %s' % out[:60], f.loc())
+            elif a == 1:
+                seen.add('ok')
+                R.check(out == 'Result::Ok(tuple())', 'table|accept' + tag, 'a canonical matrix gives %s' % out[:60], f.loc())
+            if ret[0] == 's' and out == 'Result::Ok(tuple())':
+                R.check(dim == 0 and a == 1 and not (w and w[0] == 1), 'accepts-only-canonical' + tag, 'check_format returns Ok under %s' % {k[:40]: x for k, x in v.items()}, f.loc())
+        R.check(seen == {'dim', 'order', 'range', 'ok'}, 'table|rows' + tag, 'check_format cases analysed: %s' % sorted(seen), f.loc())
+
+    R.guard(body)
+
+
+# ---------------------------------------------------------------------------
+# R9: block concatenation cursors
+# ---------------------------------------------------------------------------
+
+def concatenation(rep, F, tag):
+    """blockdiag / hvcat place block after block with running row and column cursors.  A cursor handed to fill_block as the *row* offset
+    may only ever be advanced by the row count of a block, a cursor used as *column* offset (fill_block, colcount_block) only by a
+    column count; the totals handed to spalloc are sums of nrows / ncols / nnz respectively; count pass and fill pass use the same
+    shape flag.  (Unit discipline of the cursors - a copy/paste of the neighbouring line mixes them.)"""
+    R = rep.rule('C16.R9', 'blockdiag / hvcat: row cursors advance by nrows(block), column cursors by ncols(block); spalloc receives (sum nrows, sum ncols), sum nnz; count and fill pass agree')
+
+    def body():
+        nz = lambda t: t.replace('withoverflow', '').replace(').0', ')')
+        n = 0
+        for nm in ('blockdiag', 'hvcat'):
+            fs = [f for f in F.find(name=nm) if f.file.endswith('csc/block_concatenate.rs')]
+            if len(fs) != 1:
+                raise AnchorError('%s matched %d functions' % (nm, len(fs)))
+            f = fs[0]
+            role = {}
+            for c in f.calls:
+                if c.callee.name == 'fill_block' and len(c.args) >= 6:
+                    role.setdefault(nz(canon(f.sym_operand(c.args[3]))), set()).add('row')
+                    role.setdefault(nz(canon(f.sym_operand(c.args[4]))), set()).add('col')
+                if c.callee.name == 'colcount_block' and len(c.args) >= 4:
+                    role.setdefault(nz(canon(f.sym_operand(c.args[2]))), set()).add('col')
+                if c.callee.name == 'spalloc' and nm == 'blockdiag':
+                    a = nz(canon(f.sym_operand(c.args[0])))
+                    m = re.fullmatch(r'tuple\((var:\w+), (var:\w+)\)', a)
+                    if m:
+                        role.setdefault(m.group(1), set()).add('row')
+                        role.setdefault(m.group(2), set()).add('col')
+                    role.setdefault(nz(canon(f.sym_operand(c.args[1]))), set()).add('nnz')
+            curs = {k: v for k, v in role.items() if k.startswith('var:')}
+            R.check(len(curs) >= (3 if nm == 'blockdiag' else 2), 'cursors|%s%s' % (nm, tag), '%s: cursors found %s' % (nm, sorted(role)), f.loc())
+            unit = {'row': 'nrows', 'col': 'ncols', 'nnz': 'nnz'}
+            for var, rs in sorted(curs.items()):
+                if not R.check(len(rs) == 1, 'cursor-role|%s|%s%s' % (nm, var, tag), '%s: %s is used both as %s offset' % (nm, var, ' and '.join(sorted(rs))), f.loc()):
+                    continue
+                r_ = list(rs)[0]
+                name = var[4:]
+                for bi, si, st in f.assignments():
+                    if st['p']['p'] or f.local_name(st['p']['l']) != name:
+                        continue
+                    v = nz(canon(f.sym_rvalue(st['rv'])))
+                    ok = v == '0_usize' or re.fullmatch(r'add\(%s, %s\(.*\)\)' % (re.escape(var), unit[r_]), v) is not None or re.fullmatch(r'max\(.*\)', v) is not None
+                    n += 1
+                    R.check(ok, 'cursor-unit|%s|%s%s' % (nm, name, tag),
+                            '%s: the %s cursor %s is updated by %s; it may only be reset to 0 or advanced by %s(<block>)' % (nm, {'row': 'row', 'col': 'column', 'nnz': 'entry-count'}[r_], name, v[:100], unit[r_]), f.loc(st['sp']))
+            flags = set(nz(canon(f.sym_operand(c.args[-1]))) for c in f.calls if c.callee.name in ('fill_block', 'colcount_block'))
+            R.check(len(flags) == 1, 'same-shape|%s%s' % (nm, tag), '%s: count and fill pass use shape flags %s' % (nm, sorted(flags)), f.loc())
+            ctc, bsc = calls_named(f, 'colcount_to_colptr'), calls_named(f, 'backshift_colptrs')
+            cbs, fbs = calls_named(f, 'colcount_block'), calls_named(f, 'fill_block')
+            ok = (len(ctc) == 1 and len(bsc) == 1 and cbs and fbs
+                  and all(not f.dominates(ctc[0].bb, c.bb) for c in cbs) and all(f.dominates(ctc[0].bb, c.bb) for c in fbs)
+                  and all(not f.dominates(bsc[0].bb, c.bb) for c in fbs) and f.dominates(ctc[0].bb, bsc[0].bb))
+            R.check(ok, 'passes|%s%s' % (nm, tag), '%s does not run count pass -> colcount_to_colptr -> fill pass -> backshift_colptrs in that order' % nm, f.loc())
+        R.check(n >= 8, 'count' + tag, 'only %d cursor updates analysed' % n)
+
+    R.guard(body)
+
+
 def run(ctx, rep, tier):
     for cfg in CONFIGS:
         F = ctx.facts(cfg)
@@ -540,5 +716,8 @@ def run(ctx, rep, tier):
         sums_norms(rep, F, tag)
         scalings(rep, F, tag)
         routing(rep, F, tag)
+        triangle(rep, F, tag)
+        format_check(rep, F, tag)
+        concatenation(rep, F, tag)
     from . import primitives
     primitives.vector_primitives(rep, ctx.facts('default'), ctx.eff('default'), '', 'C16.R6')
